@@ -565,7 +565,7 @@ impl Prop for C16 {
          (slice, Vec with/without spare capacity, empty Vec with capacity 0, Box, both Cow arms, iterator, From<&SharedBytes>, \
          the four serde visitor methods, JSON), clone, drop, drop on another thread, compare/order/hash, into_bytes, to_string, \
          cross-thread clone/drop storms, racing final drops (two threads drop the last two handles of 100..1500 buffers at the same instant), iterators with wrong size hints; byte inputs include empty, long, valid multi-byte, truncated and invalid UTF-8. \
-         Every case ends with two Vec-backed buffers built while the allocator serves small blocks from a packed arena of 32-byte slots (no in-band headers, last freed slot first), so that the header from_vec allocates lies directly in front of the Vec's data. \
+         Every case ends with two Vec-backed buffers built while the allocator serves small blocks from a packed arena of 32-byte slots (no in-band headers, last freed slot first), so that the header from_vec allocates lies directly in front of the Vec's data, and with a thread whose thread-local destructor drops the last clones of a buffer and a string. \
          Oracle: Vec<u8>/String model per handle + checking allocator (layout on free, double free, poison, live blocks). \
          non-trivial = a handle dropped on another thread, or the zero-capacity Vec path, or an invalid UTF-8 input; \
          distinct = different canonical JSON"
@@ -638,6 +638,11 @@ impl Prop for C16 {
                 Ok(false) => {}
                 Err((sig, what)) => out.fail(sig, what),
             }
+            if !out.failed() {
+                if let Err((sig, what)) = dropped_by_thread_local_destructor(&content) {
+                    out.fail(sig, what);
+                }
+            }
         }
         if flags.cross_thread {
             out.label("cross-thread-drop");
@@ -669,10 +674,14 @@ impl Prop for C16 {
 fn packed_neighbours(content: &[u8]) -> Result<bool, (String, String)> {
     let content = &content[..content.len().min(32)];
     let (neighbours, ok, before, after) = calloc::packed(|| {
-        let before = calloc::packed_live();
+        let mut before = 0;
         let mut neighbours = false;
         let mut ok = true;
-        for cap in [32usize, content.len().max(1)] {
+        // (the first two rounds warm up whatever the implementation may keep per thread; the last two are measured)
+        for (round, cap) in [32usize, content.len().max(1), 32usize, content.len().max(1)].into_iter().enumerate() {
+            if round == 2 {
+                before = calloc::packed_live();
+            }
             let a: Vec<u8> = Vec::with_capacity(32);
             let mut v: Vec<u8> = Vec::with_capacity(cap);
             let n = content.len().min(cap);
@@ -699,6 +708,33 @@ fn packed_neighbours(content: &[u8]) -> Result<bool, (String, String)> {
         return Err(("leak".into(), format!("Vec-backed SharedBytes whose header was allocated directly in front of the Vec's data (packed allocator): {} block(s) still alive after every clone was dropped", after - before)));
     }
     Ok(neighbours)
+}
+
+/// The last clone of a Vec-backed buffer is dropped by the destructor of a thread-local of a thread that is
+/// exiting - a thread-local that was first used before the thread built any buffer, so that it is destroyed after
+/// whatever the implementation itself keeps per thread. (A failure here aborts the process: the engine reports it.)
+fn dropped_by_thread_local_destructor(content: &[u8]) -> Result<(), (String, String)> {
+    thread_local! {
+        static LAST: std::cell::RefCell<Option<(SharedBytes, SharedString)>> = const { std::cell::RefCell::new(None) };
+    }
+    let content = content.to_vec();
+    let r = std::thread::spawn(move || {
+        LAST.with(|l| l.borrow().is_none());
+        let mut v = Vec::with_capacity(content.len() + 9);
+        v.extend_from_slice(&content);
+        let b = SharedBytes::from_vec(v);
+        let s = SharedString::from(String::from("kept until the thread is gone"));
+        let ok = *b == content[..];
+        LAST.with(|l| *l.borrow_mut() = Some((b.clone(), s.clone())));
+        drop((b, s));
+        ok
+    })
+    .join();
+    match r {
+        Ok(true) => Ok(()),
+        Ok(false) => Err(("content-mismatch".into(), "a Vec-backed SharedBytes built on a short-lived thread does not read the Vec's bytes".into())),
+        Err(_) => Err(("panic".into(), "a thread that keeps the last clone of a buffer in a thread-local panicked".into())),
+    }
 }
 
 /// Fuzz decoder: libFuzzer bytes -> a case (the byte payloads of the ops are taken verbatim from the input,
